@@ -32,6 +32,10 @@ FILES = [
     ('lib/gettext.py', 'lib.gettext'),
     ('lib/intexpr.py', 'lib.intexpr'),
     ('lib/xml.py', 'lib.xml'),
+    ('lib/iconv.py', 'lib.iconv'),
+    ('lib/tags.py', 'lib.tags'),
+    ('lib/misc.py', 'lib.misc'),
+    ('lib/domains.py', 'lib.domains'),
     ('lib/polib4us.py', 'lib.polib4us'),
     ('lib/moparser.py', 'lib.moparser'),
     ('lib/encodings.py', 'lib.encodings'),
@@ -77,6 +81,7 @@ class Extract:
         self.raises = []
         self.asserts = []
         self.warns = []
+        self.encodes = []
 
     def note(self, cls):
         for c in cls.__mro__:
@@ -239,6 +244,20 @@ class Extract:
                 ex.asserts.append((fname, s.func(), ast.unparse(n.test)))
                 s.generic_visit(n)
             def visit_Call(s, n):
+                if isinstance(n.func, ast.Attribute) and n.func.attr == 'encode':
+                    # `<text>.encode([encoding[, errors]])` — and look-alikes (`iconv.encode(...)`): receiver as written
+                    recv = ast.unparse(n.func.value)
+                    args = list(n.args)
+                    if recv == 'str.join' or (recv == 'str' and args):
+                        args = args[1:]
+                    kw = {k.arg: k.value for k in n.keywords if k.arg}
+                    enc = args[0] if args else kw.get('encoding')
+                    err = args[1] if len(args) > 1 else kw.get('errors')
+                    def const(x, default):
+                        if x is None:
+                            return default
+                        return x.value if isinstance(x, ast.Constant) and isinstance(x.value, str) else '<dynamic>'
+                    ex.encodes.append((fname, s.func(), recv[:60], const(enc, 'utf-8'), const(err, 'strict')))
                 if isinstance(n.func, ast.Attribute) and n.func.attr == 'warn' and n.args and ex.only_names(n.args[0]):
                     try:
                         for nm in ex.resolve(n.args[0], ns, backend):
@@ -320,6 +339,9 @@ def render(ex, own, reg):
     out.append('/-- `parent.warn(<Class>, …)` calls of the strformat parsers: the classes recorded in `fmt.warnings` -/')
     out.append('def warnSites : List (String × String × Nat) := [\n  ' + ',\n  '.join(
         '(%s, %s, %s)' % (lean_str(f), lean_str(fn), idx.get(n, 9999)) for f, fn, n in ex.warns) + ']\n')
+    out.append('/-- `<x>.encode(…)` calls: (file, function, receiver as written, encoding, error handler; `<dynamic>` = not a literal) -/')
+    out.append('def encodeSites : List (String × String × String × String × String) := [\n  ' + ',\n  '.join(
+        '(%s, %s, %s, %s, %s)' % tuple(lean_str(x) for x in e) for e in ex.encodes) + ']\n')
     out.append('/-- `assert` statements: (file, function, condition as written) -/')
     out.append('def assertSites : List (String × String × String) := [\n  ' + ',\n  '.join(
         '(%s, %s, %s)' % (lean_str(f), lean_str(fn), lean_str(t)) for f, fn, t in ex.asserts) + ']\n')
@@ -363,7 +385,7 @@ def main():
         if '--json' in sys.argv:
             import json
             names = sorted(ex.classes)
-            json.dump({'classes': names, 'tries': ex.tries, 'raises': ex.raises, 'warns': ex.warns, 'asserts': ex.asserts,
+            json.dump({'classes': names, 'tries': ex.tries, 'raises': ex.raises, 'warns': ex.warns, 'asserts': ex.asserts, 'encodes': ex.encodes,
                        'own': own, 'checkers': reg}, sys.stdout, indent=1)
             print()
             return
